@@ -229,6 +229,35 @@ MONITORED = [
 MONITORED_NAMES = [f.name for f in MONITORED]
 
 
+def cached_view_history(rng, f):
+    """quantile sketches cache a sorted view that points at the retained items: query (caches it) -> merge that moves and destroys
+    items -> query again, with no update in between; the merged-in sketch holds an exact multiple of 2k items (classic quantiles: its
+    base buffer is empty, so the merge goes through no update()) or an arbitrary count; then a copy and a move assignment"""
+    h = ["alloc " + rng.choice(["shared", "distinct"])]
+    k = rng.choice([2, 4, 8]) if f.name.startswith("quant") else (rng.choice([4, 6]) if f.name.startswith("req") else rng.choice([8, 9]))
+    cfg = {"quant": "%d", "quantstr": "%d", "kllstr": "%d"}.get(f.name, "%d 1") % k
+    cfg2 = {"quant": "%d", "quantstr": "%d", "kllstr": "%d"}.get(f.name, "%d 1") % (k * rng.choice([1, 1, 2]) if f.name.startswith("quant") else k)
+    h += ["new %s 0 %s" % (f.name, cfg), "new %s 1 %s" % (f.name, cfg2)]
+    k2 = int(cfg2.split()[0])
+    for i in range(2 * k * rng.choice([2, 3]) + rng.choice([0, 0, 1, 3])):
+        h.append("upd 0 %d 1" % rng.randrange(200))
+    h.append("query 0 %d" % rng.randrange(40))
+    for i in range(2 * k2 * rng.choice([1, 2, 3]) + rng.choice([0, 0, 0, 2])):
+        h.append("upd 1 %d 1" % rng.randrange(200))
+    h.append("%s 0 1 %s" % (rng.choice(["merge", "mergemv"]), coins(rng, 48)))
+    h.append("query 0 %d" % rng.randrange(40))
+    h.append("copy 0 2")
+    h.append("query 2 %d" % rng.randrange(40))
+    h.append("new %s 3 %s" % (f.name, cfg))
+    h.append("upd 3 7 1")
+    h.append("query 3 1")
+    h.append("massign 3 0")
+    h.append("query 3 %d" % rng.randrange(40))
+    for i in (0, 1, 2, 3):
+        h.append("destroy %d" % i)
+    return h
+
+
 def gen_history(rng, tier, fams, nops, cut_ok=False):
     """one lifecycle history over objects of the given families (>= 3 live objects most of the time)."""
     h = ["alloc " + rng.choice(["shared", "shared", "distinct"])]
@@ -512,6 +541,9 @@ class LifePart(Part):
         for i in range(n):
             nops = rng.choice([40, 120, 300]) if tier == "quick" else rng.choice([100, 400, 1200])
             hs.append(gen_history(rng, tier, self.fams, nops, cut_ok=not self.compare_model))
+        for f in self.fams:
+            if f.name in ("kllstr", "req", "reqstr", "quant", "quantstr"):
+                hs += [cached_view_history(rng, f) for _ in range(3 if tier == "quick" else 12)]
         return hs
 
     def oracle(self, hist, impl_out):
